@@ -71,6 +71,7 @@ def run(chk):
         chk.ok("intermediate-segments-are-cliffs", fel.qname, f"{n_cases} orderings", how="exhaustive PE")
     chk.floor("orderings", n_cases, 700)
     _flag_is_identity(chk, src)
+    _couplings_nf(chk, src)
     n_tab = mu2_table(chk, src, pe, rule="segment-couplings-table")
     chk.floor("mu2 table rows", n_tab, 6)
     chk.note(cases=n_cases, files=["src/eko/runner/recipes.py", "src/eko/evolution_operator/__init__.py"])
@@ -109,3 +110,57 @@ def _flag_is_identity(chk, src):
              "eko.runner.recipes._create no longer de-duplicates recipes by identity")
     fenc = src.func("eko.io.inventory.encode")
     chk.need("hash(header)" in ast.unparse(fenc.node), "stored parts are no longer named by hash(header)")
+
+
+def _couplings_nf(chk, src):
+    """Every coupling a segment asks for is requested in the segment's OWN flavour number: at a matching scale the couplings of
+    the two adjacent patches differ (from NNLO, or with matching ratios / scale variations from NLO), and the default flavour
+    number of the coupling object switches exactly there, so a request without nf jumps for a target on the matching scale."""
+    from ..pe import Opaque
+    from ..arr import Arr
+
+    ocls = src.cls("eko.evolution_operator.Operator")
+    n = 0
+    for meth in ("compute_a", "compute_aem_list"):
+        f = ocls.methods[meth]
+        for thr, qed, scheme in itertools.product((False, True), (False, True), (None, "exponentiated", "expanded")):
+            pe = PE(src)
+            asked = []
+
+            class SC(Opaque):
+                def a(self, scale_to=None, nf_to=None, **k):
+                    asked.append(("a", scale_to, nf_to))
+                    return Arr.from_nested([dag.sym(f"as{len(asked)}"), dag.sym(f"aem{len(asked)}")])
+
+                def a_s(self, scale_to=None, nf_to=None, **k):
+                    asked.append(("a_s", scale_to, nf_to))
+                    return dag.sym(f"as{len(asked)}")
+
+                def a_em(self, scale_to=None, nf_to=None, **k):
+                    asked.append(("a_em", scale_to, nf_to))
+                    return dag.sym(f"aem{len(asked)}")
+
+            o = Obj(ocls)
+            mg = Opaque()
+            mg.couplings = SC()
+            svm = {k.lower(): v for k, v in pe.enum_members(pe.get_global("eko.io.types", "ScaleVariationsMethod").cls).items()}
+            o.attrs.update(managers=mg, nf=4, order=(3, 1 if qed else 0), q2_from=Fraction(10), q2_to=Fraction(20), is_threshold=thr,
+                           config={"ModSV": svm.get(scheme) if scheme else None, "xif2": Fraction(2), "ev_op_iterations": 2})
+            inst = f"{meth},threshold={thr},qed={qed},scheme={scheme}"
+            try:
+                if meth == "compute_aem_list":
+                    o.attrs["a"] = pe.apply(pe.getattr(o, "compute_a"), [], {})
+                    del asked[:]
+                pe.apply(pe.getattr(o, meth), [], {})
+            except PERaise as e:
+                chk.fail("segment-couplings-in-the-segment-flavour-number", f.qname, f"{inst}: raises {e}", where=f.where, instance=inst)
+                continue
+            if not asked:
+                continue   # nothing requested in this configuration (e.g. no QED: the list is built from the end-point values)
+            n += 1
+            bad = [(k, str(s_), nf_) for k, s_, nf_ in asked if nf_ != 4]
+            chk.decide(not bad, "segment-couplings-in-the-segment-flavour-number", f.qname,
+                       f"{inst}: couplings requested as {bad[:3]} for a segment with nf=4: without the segment's flavour number the coupling object "
+                       f"takes its default for the scale, which switches exactly on a matching scale - the operator of a target on that scale "
+                       f"then jumps with respect to its neighbours in the same patch", where=f.where, instance=inst, how="PE with a recording coupling object")
+    chk.floor("coupling requests of a segment", n, 12)
